@@ -543,6 +543,15 @@ pub mod arc {
     }
 }
 
+pub mod det {
+    //! Deterministic iteration order for maps whose hasher is seeded per process.
+    pub fn sorted<K: Ord, V, I: IntoIterator<Item = (K, V)>>(it: I) -> Vec<(K, V)> {
+        let mut v: Vec<(K, V)> = it.into_iter().collect();
+        v.sort_by(|a, b| a.0.cmp(&b.0));
+        v
+    }
+}
+
 pub mod thread {
     /// `std::thread::spawn` for detached background threads: the simulator may adopt the closure.
     pub fn spawn_detached<F>(name: &str, f: F) -> std::io::Result<()>
